@@ -234,11 +234,13 @@ type Obs struct {
 }
 
 type relay struct {
-	f    *Fixture
-	sc   *Scn
-	v    Variant
-	obs  *Obs
-	base string // the honest client's full token
+	f         *Fixture
+	sc        *Scn
+	v         Variant
+	obs       *Obs
+	clientTok string            // the token the real client is configured with
+	keys      map[string][]byte // the keys the real server holds (reference view)
+	minted    map[string]string // header.payload texts minted by the harness -> kid
 	// insider / forger knowledge
 	insTok string // full token the insider presents
 	insID  string
@@ -246,7 +248,6 @@ type relay struct {
 	m1     refcodec.C11Msg1
 	m2sent refcodec.C11Msg2
 	m2ok   bool
-	after3 int
 	tailIn []byte // frames to inject when a client that accepted is left waiting
 }
 
@@ -314,3 +315,731 @@ var identityAlts = []string{"mallory@" + Domain, "alice@evil.test", "alicf@" + D
 
 func pick[T any](a []T, i int) T { return a[((i%len(a))+len(a))%len(a)] }
 
+func trailer(alt int) []byte {
+	switch ((alt % 4) + 4) % 4 {
+	case 0:
+		return []byte{0}
+	case 1:
+		return make([]byte, 8)
+	case 2:
+		return []byte("X")
+	default:
+		return bytes.Repeat([]byte{0xA5}, 100)
+	}
+}
+
+// editSeg flips one bit of one character of segment seg (0 header, 1 payload,
+// 2 signature) of a dot-separated token text.
+func editSeg(tok string, seg int, pos string, idx, bit int) string {
+	parts := strings.Split(tok, ".")
+	if seg >= len(parts) || len(parts[seg]) == 0 {
+		return tok
+	}
+	b := []byte(parts[seg])
+	b = flip(b, posIndex(pos, len(b), idx), bit)
+	parts[seg] = string(b)
+	return strings.Join(parts, ".")
+}
+
+func (r *relay) onMessage(from, idx int, body []byte) (fwd, back [][]byte) {
+	sc := r.sc
+	pass := [][]byte{body}
+	switch {
+	case from == Cli && idx == 2: // message 1
+		m, err := refcodec.C11ParseMsg1(body)
+		regular := err == nil && m.Status == refcodec.C11StatusOK
+		if !regular {
+			r.obs.Note += "client sent no regular message 1; "
+		}
+		r.m1 = m
+		if sc.Via == "insider" {
+			si, _ := splitTok(r.insTok)
+			ra := m.RA
+			if len(ra) == 0 {
+				ra = bytes.Repeat([]byte{0x5A}, refcodec.C11NonceLen)
+			}
+			r.m1 = refcodec.C11Msg1{Status: 0, A: r.insID, Token: si, RA: ra}
+			return [][]byte{r.m1.Encode()}, nil
+		}
+		if sc.Msg != 1 || !regular {
+			return pass, nil
+		}
+		out := r.dev1(m, body)
+		if pm, err := refcodec.C11ParseMsg1(out); err == nil {
+			r.m1 = pm
+		} else {
+			r.m1 = refcodec.C11Msg1{Status: -99}
+		}
+		return [][]byte{out}, nil
+
+	case from == Srv && idx == 2: // message 2
+		r.obs.m2raw = append([]byte{}, body...)
+		m, err := refcodec.C11ParseMsg2(body)
+		r.m2sent, r.m2ok = m, err == nil && m.Status == refcodec.C11StatusOK
+		if r.m2ok {
+			r.refCheck2(m)
+		}
+		if sc.Via == "insider" {
+			// the insider answers message 2 itself; the real client is a bystander
+			m3 := refcodec.C11Msg3{Status: refcodec.C11StatusError}
+			if r.m2ok {
+				si, sig := splitTok(r.insTok)
+				k := refcodec.C11DeriveKeys(sig, si)
+				m3 = refcodec.C11Msg3{Status: 0, A: r.insID, RB: m.RB, Mac: refcodec.C11Mac3(macHash(len(m.Mac)), k.K, r.insID, m.RB)}
+			}
+			return pass, [][]byte{m3.Encode()}
+		}
+		if sc.Msg != 2 || !r.m2ok {
+			return pass, nil
+		}
+		return [][]byte{r.dev2(m, body)}, nil
+
+	case from == Cli && idx == 3: // message 3 (or the client's give-up word)
+		r.obs.m3raw = append([]byte{}, body...)
+		m, err := refcodec.C11ParseMsg3(body)
+		if err == nil {
+			st := m.Status
+			r.obs.M3Status = &st
+		}
+		if sc.Via == "insider" {
+			return nil, nil // the insider already answered
+		}
+		regular := err == nil && m.Status == refcodec.C11StatusOK
+		if regular {
+			r.refCheck3(m)
+		}
+		if sc.Msg != 3 || !regular {
+			return pass, nil
+		}
+		return [][]byte{r.dev3(m, body)}, nil
+
+	case from == Cli && idx > 3 && sc.Via == "insider":
+		return nil, nil
+
+	case from == Srv && (idx == 3 || idx == 4):
+		if idx == 3 && len(body) == 8 {
+			r.obs.SawHasKey = true
+		}
+		r.obs.tail = append(r.obs.tail, refcodec.Frame{End: 1, Body: body}.Encode()...)
+		return pass, nil
+	}
+	return pass, nil
+}
+
+// refCheck2: an honest server's proof is recomputed by the reference from the
+// signature the server must derive for the token text it received.
+func (r *relay) refCheck2(m refcodec.C11Msg2) {
+	sig, ok := r.srvSig(r.m1.Token)
+	if !ok || r.m1.Status != 0 {
+		return
+	}
+	k := refcodec.C11DeriveKeys(sig, r.m1.Token)
+	want := refcodec.C11Mac2(macHash(len(m.Mac)), k.K, m.A, m.B, m.RA, m.RB)
+	r.obs.RefChecked++
+	if !bytes.Equal(want, m.Mac) {
+		r.obs.RefBad += fmt.Sprintf("server proof in message 2 differs from the reference computation (len %d); ", len(m.Mac))
+	}
+}
+
+// refCheck3: an honest client's proof is recomputed from the credential it was
+// configured with and the nonce it was handed.
+func (r *relay) refCheck3(m refcodec.C11Msg3) {
+	si, sig := splitTok(r.clientTok)
+	if len(sig) == 0 || strings.Count(r.clientTok, ".") != 2 {
+		return
+	}
+	k := refcodec.C11DeriveKeys(sig, si)
+	want := refcodec.C11Mac3(macHash(len(m.Mac)), k.K, m.A, m.RB)
+	r.obs.RefChecked++
+	if !bytes.Equal(want, m.Mac) {
+		r.obs.RefBad += fmt.Sprintf("client proof in message 3 differs from the reference computation (len %d); ", len(m.Mac))
+	}
+}
+
+// srvSig: the signature a server holding r.keys derives for a token text the
+// harness minted (kid read from the harness's own records, not parsed).
+func (r *relay) srvSig(si string) ([]byte, bool) {
+	kid, ok := r.minted[si]
+	if !ok {
+		return nil, false
+	}
+	key, ok := r.keys[kid]
+	if !ok {
+		return nil, false
+	}
+	return refcodec.C11TokenSig(key, kid, si), true
+}
+
+func (r *relay) junkKey() []byte { return bytes.Repeat([]byte{0x42}, 32) }
+
+func (r *relay) dev1(m refcodec.C11Msg1, body []byte) []byte {
+	sc, v := r.sc, r.v
+	switch sc.Kind {
+	case "tok_hdr":
+		m.Token = editSeg(m.Token, 0, sc.Pos, v.Idx, v.Bit)
+	case "tok_pay":
+		m.Token = editSeg(m.Token, 1, sc.Pos, v.Idx, v.Bit)
+	case "tok_pay_sub":
+		parts := strings.Split(m.Token, ".")
+		if len(parts) == 2 {
+			if pj, err := base64.RawURLEncoding.DecodeString(parts[1]); err == nil {
+				q, _ := json.Marshal(pick(identityAlts, v.Alt))
+				old, _ := json.Marshal(AliceSub)
+				parts[1] = refcodec.C11B64(bytes.Replace(pj, old, q, 1))
+				m.Token = strings.Join(parts, ".")
+			}
+		}
+	case "claim_m1":
+		m.A = pick(identityAlts, v.Alt)
+	case "status_err", "status_abort", "status_other":
+		m.Status = pick(statusAlts[sc.Kind], v.Alt)
+	case "trail":
+		m.Trail = trailer(v.Alt)
+	case "cut":
+		return body[:((v.Idx%len(body))+len(body))%len(body)]
+	case "nonce_wrong":
+		m.RA = flip(m.RA, posIndex(sc.Pos, len(m.RA), v.Idx), v.Bit)
+	case "nonce_trunc":
+		m.RA = m.RA[:1+v.Idx%(len(m.RA)-1)]
+	case "nonce_empty":
+		m.RA = nil
+	default:
+		return body
+	}
+	return m.Encode()
+}
+
+func macEdit(kind, pos string, v Variant, mac []byte) ([]byte, bool) {
+	switch kind {
+	case "mac_wrong":
+		return flip(mac, posIndex(pos, len(mac), v.Idx), v.Bit), true
+	case "mac_trunc":
+		if len(mac) < 2 {
+			return nil, true
+		}
+		return mac[:1+v.Idx%(len(mac)-1)], true
+	case "mac_long":
+		n := []int{1, 12, 44}[((v.Alt%3)+3)%3]
+		return append(append([]byte{}, mac...), make([]byte, n)...), true
+	case "mac_empty":
+		return nil, true
+	}
+	return mac, false
+}
+
+func nonceEdit(kind, pos string, v Variant, n []byte) ([]byte, bool) {
+	switch kind {
+	case "echo_wrong", "nonce_wrong":
+		return flip(n, posIndex(pos, len(n), v.Idx), v.Bit), true
+	case "echo_trunc", "nonce_trunc":
+		if len(n) < 2 {
+			return nil, true
+		}
+		return n[:1+v.Idx%(len(n)-1)], true
+	case "echo_empty", "nonce_empty":
+		return nil, true
+	}
+	return n, false
+}
+
+func (r *relay) dev2(m refcodec.C11Msg2, body []byte) []byte {
+	sc, v := r.sc, r.v
+	if mac, ok := macEdit(sc.Kind, sc.Pos, v, m.Mac); ok {
+		m.Mac = mac
+		return m.Encode()
+	}
+	switch sc.Kind {
+	case "echo_a":
+		m.A = pick(identityAlts, v.Alt)
+	case "server_id":
+		m.B = pick([]string{"server@evil.test", "server@" + Domain + "x", "", "alice@" + Domain}, v.Alt)
+	case "status_err", "status_abort", "status_other":
+		m.Status = pick(statusAlts[sc.Kind], v.Alt)
+	case "trail":
+		m.Trail = trailer(v.Alt)
+	case "cut":
+		return body[:((v.Idx%len(body))+len(body))%len(body)]
+	case "replay_msg":
+		if r.old != nil && len(r.old.m2raw) > 0 {
+			return r.old.m2raw
+		}
+	case "replay_mac":
+		if r.old != nil {
+			if om, err := refcodec.C11ParseMsg2(r.old.m2raw); err == nil {
+				m.Mac = om.Mac
+			}
+		}
+	case "forge":
+		m.Mac = refcodec.C11Mac2(macHash(len(m.Mac)), r.junkKey(), m.A, m.B, m.RA, m.RB)
+	case "echo_wrong", "echo_trunc", "echo_empty":
+		m.RA, _ = nonceEdit(sc.Kind, sc.Pos, v, m.RA)
+	case "nonce_wrong", "nonce_trunc", "nonce_empty":
+		m.RB, _ = nonceEdit(sc.Kind, sc.Pos, v, m.RB)
+	default:
+		return body
+	}
+	return m.Encode()
+}
+
+func (r *relay) dev3(m refcodec.C11Msg3, body []byte) []byte {
+	sc, v := r.sc, r.v
+	if mac, ok := macEdit(sc.Kind, sc.Pos, v, m.Mac); ok {
+		m.Mac = mac
+		return m.Encode()
+	}
+	switch sc.Kind {
+	case "claim_m3":
+		m.A = pick(identityAlts, v.Alt)
+	case "status_err", "status_abort", "status_other":
+		m.Status = pick(statusAlts[sc.Kind], v.Alt)
+	case "trail":
+		m.Trail = trailer(v.Alt)
+	case "cut":
+		return body[:((v.Idx%len(body))+len(body))%len(body)]
+	case "replay_msg":
+		if r.old != nil && len(r.old.m3raw) > 0 {
+			return r.old.m3raw
+		}
+	case "replay_mac":
+		if r.old != nil {
+			if om, err := refcodec.C11ParseMsg3(r.old.m3raw); err == nil {
+				m.Mac = om.Mac
+			}
+		}
+	case "reflect":
+		m.Mac = r.m2sent.Mac
+	case "forge":
+		m.Mac = refcodec.C11Mac3(macHash(len(m.Mac)), r.junkKey(), m.A, m.RB)
+	case "echo_wrong", "echo_trunc", "echo_empty":
+		m.RB, _ = nonceEdit(sc.Kind, sc.Pos, v, m.RB)
+	default:
+		return body
+	}
+	return m.Encode()
+}
+
+func (r *relay) onStall() (toCli, toSrv []byte) {
+	if r.sc.Via == "insider" {
+		return nil, nil
+	}
+	o := r.obs
+	if !o.Injected && o.M3Status != nil && *o.M3Status == refcodec.C11StatusOK && !o.SawHasKey && len(r.tailIn) > 0 {
+		// The real client told its peer "OK" in message 3 and now waits for the
+		// rest of the handshake, but the real server did not accept. An on-path
+		// party supplies the (cleartext, recorded) remainder, so that the client's
+		// own verdict on the token exchange becomes its handshake result.
+		o.Injected = true
+		return r.tailIn, nil
+	}
+	return nil, nil
+}
+
+// exchange runs one real handshake (client configured with clientTok against a
+// server reading f.Dir or f.DirOther) through the relay.
+func (f *Fixture) exchange(r *relay, otherSrv bool) *Obs {
+	obs := &Obs{}
+	r.obs = obs
+	r.f = f
+	r.keys = f.Keys(otherSrv)
+	n := NewNet()
+	n.OnMessage = r.onMessage
+	n.OnStall = r.onStall
+	ccfg, scfg := clientCfg(r.clientTok), f.serverCfg(otherSrv)
+	cs, ss := stream.NewStream(n.Conn(Cli)), stream.NewStream(n.Conn(Srv))
+	ca, sa := security.NewAuthenticator(ccfg, cs), security.NewAuthenticator(scfg, ss)
+	ctx, cancel := context.WithCancel(context.Background())
+	defer cancel()
+	wd := time.AfterFunc(30*time.Second, func() { obs.Dead = true; n.Abort() })
+	defer wd.Stop()
+	var wg sync.WaitGroup
+	var sneg *security.SecurityNegotiation
+	var serr, cerr error
+	wg.Add(2)
+	go func() {
+		defer wg.Done()
+		defer n.Finish(Srv)
+		defer func() {
+			if p := recover(); p != nil {
+				serr = fmt.Errorf("panic: %v", p)
+			}
+		}()
+		sneg, serr = sa.ServerHandshake(ctx)
+	}()
+	go func() {
+		defer wg.Done()
+		defer n.Finish(Cli)
+		defer func() {
+			if p := recover(); p != nil {
+				cerr = fmt.Errorf("panic: %v", p)
+			}
+		}()
+		_, cerr = ca.ClientHandshake(ctx)
+	}()
+	wg.Wait()
+	obs.C, obs.S = "ok", "ok"
+	if cerr != nil {
+		obs.C, obs.CErr = "fail", cerr.Error()
+	}
+	if serr != nil {
+		obs.S, obs.SErr = "fail", serr.Error()
+	} else if sneg != nil {
+		obs.User = sneg.User
+		if !sneg.Authentication || sneg.NegotiatedAuth != security.AuthToken {
+			obs.Note += fmt.Sprintf("server handshake returned without TOKEN authentication (auth=%v method=%s); ", sneg.Authentication, sneg.NegotiatedAuth)
+		}
+	}
+	return obs
+}
+
+// Tail returns the frames an honest server sends after message 3.
+func (f *Fixture) Tail() ([]byte, error) {
+	f.tailOnce.Do(func() {
+		now := time.Now().Unix()
+		tok := refcodec.C11MintToken(f.K1, refcodec.C11Claims{Kid: "k1", Sub: AliceSub, Iss: Domain, Iat: now - 5, Exp: now + 600, Jti: "tail"})
+		r := &relay{sc: &Scn{Mode: "exchange", Kind: "none"}, clientTok: tok, minted: map[string]string{}}
+		o := f.exchange(r, false)
+		if o.C != "ok" || o.S != "ok" || !o.SawHasKey || len(o.tail) == 0 {
+			f.tailErr = fmt.Errorf("honest exchange did not complete: client %q server %q", o.CErr, o.SErr)
+			return
+		}
+		f.tail = o.tail
+	})
+	return f.tail, f.tailErr
+}
+
+// Concrete describes what a job did, for failure reports.
+type Concrete struct {
+	Kind      string `json:"kind"` // effective scenario kind after classification of the concrete edit
+	ClientTok string `json:"client_token,omitempty"`
+	Presented string `json:"presented_token,omitempty"`
+	Identity  string `json:"identity,omitempty"`
+	OtherSrv  bool   `json:"server_holds_other_key,omitempty"`
+	Token     string `json:"token,omitempty"`
+}
+
+func delta(v Variant, def int64) int64 {
+	if v.Delta >= 5 {
+		return v.Delta
+	}
+	return def
+}
+
+// timeClaims gives the claims of the time-deviation kinds relative to now.
+func timeClaims(kind string, v Variant, now int64) (refcodec.C11Claims, bool) {
+	c := refcodec.C11Claims{Kid: "k1", Sub: AliceSub, Iss: Domain, Iat: now - 5, Exp: now + 600, Jti: fmt.Sprintf("t%d", v.Idx)}
+	switch strings.TrimPrefix(kind, "v_") {
+	case "exp_past":
+		c.Iat, c.Exp = now-300, now-delta(v, 10)
+		if c.Exp < c.Iat {
+			c.NoIat = true // isolate the expiry: no issue time at all
+		}
+	case "exp_now":
+		c.Exp = now
+	case "exp_near":
+		c.Exp = now + delta(v, 60)
+	case "iat_old":
+		c.Iat = now - MaxAge - delta(v, 10)
+	case "iat_limit":
+		c.Iat = now - MaxAge
+	case "iat_near":
+		c.Iat = now - MaxAge + delta(v, 60)
+	case "iat_future":
+		c.Iat = now + delta(v, 60)
+		c.Exp = c.Iat + 600
+	default:
+		return c, false
+	}
+	return c, true
+}
+
+var unknownKids = []string{"k9", "K1", "k1.bak", "k1 ", "k3"}
+
+const b64alpha = "ABCDEFGHIJKLMNOPQRSTUVWXYZabcdefghijklmnopqrstuvwxyz0123456789-_"
+
+// sameSigRespell changes the spelling of the signature without changing the
+// bytes a lenient base64url decoder yields: the last character of a 43-character
+// signature carries two unused bits.
+func sameSigRespell(tok string, alt int) string {
+	i := len(tok) - 1
+	p := strings.IndexByte(b64alpha, tok[i])
+	if p < 0 {
+		return tok
+	}
+	return tok[:i] + string(b64alpha[p^(1+((alt%3)+3)%3)])
+}
+
+func sigBytes(tok string) ([]byte, error) {
+	i := strings.LastIndexByte(tok, '.')
+	return base64.RawURLEncoding.DecodeString(tok[i+1:])
+}
+
+// Model gives access to all scenarios (for re-classification of concrete edits).
+type Model map[string]*Scn
+
+func (m Model) Find(mode, kind string, msg int, pos, via string) *Scn {
+	return m[(&Scn{Mode: mode, Kind: kind, Msg: msg, Pos: pos, Via: via}).Key()]
+}
+
+// Run replays one exchange scenario against the real endpoints.
+func Run(f *Fixture, model Model, sc *Scn, v Variant) (*Obs, *Scn, Concrete, error) {
+	tail, err := f.Tail()
+	if err != nil {
+		return nil, sc, Concrete{}, err
+	}
+	now := time.Now().Unix()
+	baseC := refcodec.C11Claims{Kid: "k1", Sub: AliceSub, Iss: Domain, Iat: now - 5, Exp: now + 600, Jti: fmt.Sprintf("j%d-%d", v.Idx, v.Bit)}
+	base := refcodec.C11MintToken(f.K1, baseC)
+	r := &relay{sc: sc, v: v, clientTok: base, tailIn: tail, minted: map[string]string{}}
+	note := func(tok, kid string) { si, _ := splitTok(tok); r.minted[si] = kid }
+	note(base, "k1")
+	other := false
+	eff := sc
+	conc := Concrete{Kind: sc.Kind}
+	present := func(tok string) {
+		if sc.Via == "insider" {
+			r.insTok, r.insID = tok, AliceSub
+			conc.Presented = tok
+		} else {
+			r.clientTok = tok
+		}
+	}
+	switch sc.Kind {
+	case "tok_hdr":
+		if sc.Via == "config" {
+			r.clientTok = editSeg(base, 0, sc.Pos, v.Idx, v.Bit)
+		}
+	case "tok_pay":
+		if sc.Via == "config" {
+			r.clientTok = editSeg(base, 1, sc.Pos, v.Idx, v.Bit)
+		}
+	case "tok_sig":
+		r.clientTok = editSeg(base, 2, sc.Pos, v.Idx, v.Bit)
+		was, _ := sigBytes(base)
+		if got, err := sigBytes(r.clientTok); err == nil && bytes.Equal(got, was) {
+			// the edit changed the spelling, not the signature
+			if alt := model.Find("exchange", "tok_sig_same", 0, "last", "config"); alt != nil {
+				eff = alt
+			}
+		}
+	case "tok_sig_same":
+		r.clientTok = sameSigRespell(base, v.Alt)
+	case "tok_otherkey":
+		r.clientTok = refcodec.C11MintToken(f.K2, baseC)
+	case "tok_unknownkid":
+		c := baseC
+		c.Kid = pick(unknownKids, v.Alt)
+		r.clientTok = refcodec.C11MintToken(f.KX, c)
+	case "srv_otherkey":
+		other = true
+	case "claim_all":
+		r.insTok, r.insID = base, pick(identityAlts, v.Alt)
+		conc.Identity = r.insID
+	case "replay_msg", "replay_mac":
+		r0 := &relay{sc: &Scn{Mode: "exchange", Kind: "none"}, clientTok: base, minted: r.minted}
+		r.old = f.exchange(r0, false)
+		if r.old.C != "ok" || r.old.S != "ok" {
+			return nil, sc, conc, fmt.Errorf("earlier honest session failed: client %q server %q", r.old.CErr, r.old.SErr)
+		}
+	default:
+		if c, ok := timeClaims(sc.Kind, v, now); ok {
+			t := refcodec.C11MintToken(f.K1, c)
+			note(t, "k1")
+			present(t)
+		}
+	}
+	conc.Kind = eff.Kind
+	conc.OtherSrv = other
+	if r.clientTok != base {
+		conc.ClientTok = r.clientTok
+	}
+	obs := f.exchange(r, other)
+	if sc.Via == "insider" {
+		obs.C = "na"
+	}
+	return obs, eff, conc, nil
+}
+
+// userMatches: the server records the user part of the subject
+// (SecurityNegotiation.User); the model's "alice" is AliceSub.
+func userMatches(model, got string) bool {
+	sub := map[string]string{"alice": AliceSub, "mallory": "mallory@" + Domain}[model]
+	if sub == "" {
+		return false
+	}
+	return got == sub || got == strings.SplitN(sub, "@", 2)[0]
+}
+
+// Conforms reports whether the observation is one of the outcomes the model
+// allows for the scenario.
+func Conforms(sc *Scn, o *Obs) bool {
+	for _, a := range sc.Allowed {
+		if a.S != o.S {
+			continue
+		}
+		if a.C != "na" && o.C != "na" && a.C != o.C {
+			continue
+		}
+		if a.S == "ok" && !userMatches(a.User, o.User) {
+			continue
+		}
+		return true
+	}
+	return false
+}
+
+func (o *Obs) Out() Out { return Out{C: o.C, S: o.S, User: o.User} }
+
+// ---- standalone verification ------------------------------------------------------
+
+// VerifyResult is one call of the real VerifyIDToken.
+type VerifyResult struct {
+	Got     string // accept | reject
+	Err     string
+	Subject string
+	Oracle  refcodec.C11Verdict
+	Skip    bool // the concrete edit did not change the token
+}
+
+func editChar(tok string, seg int, pos string, v Variant) string {
+	parts := strings.Split(tok, ".")
+	b := []byte(parts[seg])
+	if len(b) == 0 {
+		return tok
+	}
+	i := posIndex(pos, len(b), v.Idx)
+	switch v.Edit {
+	case "del":
+		b = append(b[:i:i], b[i+1:]...)
+	case "ins":
+		c := b64alpha[(v.Bit*7+i)%64]
+		b = append(b[:i:i], append([]byte{c}, b[i:]...)...)
+	case "dot":
+		b[i] = '.'
+	case "swap":
+		j := (i + 1) % len(b)
+		b[i], b[j] = b[j], b[i]
+	case "sub":
+		p := strings.IndexByte(b64alpha, b[i])
+		b[i] = b64alpha[(p+1+v.Bit%63)%64]
+	default: // flip
+		b[i] ^= 1 << (uint(v.Bit) % 8)
+	}
+	parts[seg] = string(b)
+	return strings.Join(parts, ".")
+}
+
+// BaseTokens: the honest tokens the verification variants start from.
+func (f *Fixture) baseToken(i int, now int64, jti string) (string, string) {
+	c := refcodec.C11Claims{Sub: AliceSub, Iss: Domain, Iat: now - 5, Exp: now + 600, Jti: jti}
+	switch ((i % 4) + 4) % 4 {
+	case 1:
+		c.Kid, c.Sub = "k2", "bob@"+Domain
+		return refcodec.C11MintToken(f.K2, c), c.Sub
+	case 2:
+		c.Kid = "POOL"
+		return refcodec.C11MintToken(f.KP, c), c.Sub
+	case 3:
+		c.NoKid = true
+		return refcodec.C11MintToken(f.KP, c), c.Sub
+	default:
+		c.Kid = "k1"
+		return refcodec.C11MintToken(f.K1, c), c.Sub
+	}
+}
+
+// RunVerify calls the real standalone verifier on the concrete token of a
+// verification scenario.
+func RunVerify(f *Fixture, model Model, sc *Scn, v Variant) (VerifyResult, *Scn, Concrete) {
+	now := time.Now().Unix()
+	jti := fmt.Sprintf("v%d-%d-%s", v.Idx, v.Bit, v.Edit)
+	other := false
+	eff := sc
+	var tok string
+	base, _ := f.baseToken(v.Base, now, jti)
+	switch sc.Kind {
+	case "v_none":
+		tok = base
+	case "v_pool":
+		tok, _ = f.baseToken(2+v.Base%2, now, jti)
+	case "v_otherkey":
+		tok = refcodec.C11MintToken(f.K2, refcodec.C11Claims{Kid: "k1", Sub: AliceSub, Iss: Domain, Iat: now - 5, Exp: now + 600, Jti: jti})
+		if v.Alt%2 == 1 {
+			tok = refcodec.C11MintToken(f.K1, refcodec.C11Claims{Kid: "k2", Sub: AliceSub, Iss: Domain, Iat: now - 5, Exp: now + 600, Jti: jti})
+		}
+	case "v_unknownkid":
+		tok = refcodec.C11MintToken(f.KX, refcodec.C11Claims{Kid: pick(unknownKids, v.Alt), Sub: AliceSub, Iss: Domain, Iat: now - 5, Exp: now + 600, Jti: jti})
+	case "v_srv_otherkey":
+		tok, _ = f.baseToken(0, now, jti)
+		other = true
+	case "v_sig_same":
+		tok = sameSigRespell(base, v.Alt)
+		if v.Alt >= 3 {
+			i := strings.LastIndexByte(base, '.') + 1 + v.Idx%40
+			tok = base[:i] + pick([]string{"\n", "\r", "\r\n"}, v.Alt) + base[i:]
+		}
+	case "v_space":
+		tok = pick([]string{" %s", "%s\n", "\t%s ", "\n%s\r\n"}, v.Alt)
+		tok = fmt.Sprintf(tok, base)
+	case "v_hdr", "v_pay", "v_sig":
+		seg := map[string]int{"v_hdr": 0, "v_pay": 1, "v_sig": 2}[sc.Kind]
+		tok = editChar(base, seg, sc.Pos, v)
+		if tok == base {
+			return VerifyResult{Skip: true}, sc, Concrete{}
+		}
+		if sc.Kind == "v_sig" && strings.Count(tok, ".") == 2 {
+			was, _ := sigBytes(base)
+			if got, err := sigBytes(tok); err == nil && bytes.Equal(got, was) {
+				if alt := model.Find("verify", "v_sig_same", 0, "-", "verify"); alt != nil {
+					eff = alt
+				}
+			}
+		}
+	default:
+		c, ok := timeClaims(sc.Kind, v, now)
+		if !ok {
+			return VerifyResult{Skip: true}, sc, Concrete{}
+		}
+		tok = refcodec.C11MintToken(f.K1, c)
+	}
+	cfg := f.serverCfg(other)
+	res := VerifyResult{Oracle: refcodec.C11VerifyOracle(tok, f.Keys(other), now, MaxAge, 5)}
+	func() {
+		defer func() {
+			if p := recover(); p != nil {
+				res.Got, res.Err = "panic", fmt.Sprint(p)
+			}
+		}()
+		claims, err := security.VerifyIDToken(tok, cfg)
+		if err != nil {
+			res.Got, res.Err = "reject", err.Error()
+		} else {
+			res.Got = "accept"
+			if claims != nil {
+				res.Subject = claims.Subject
+			}
+		}
+	}()
+	return res, eff, Concrete{Kind: eff.Kind, Token: tok, OtherSrv: other}
+}
+
+// VerifyConforms: the result must be allowed by the model's scenario AND by the
+// reference oracle (both derive from the statement; they must not contradict).
+func VerifyConforms(sc *Scn, r VerifyResult) (ok bool, oracleContradictsModel bool) {
+	allowed := map[string]bool{}
+	for _, a := range sc.Allowed {
+		allowed[a.V] = true
+	}
+	if r.Oracle.Want != "either" && !allowed[r.Oracle.Want] {
+		return false, true
+	}
+	if !allowed[r.Got] {
+		return false, false
+	}
+	if r.Oracle.Want != "either" && r.Oracle.Want != r.Got {
+		return false, false
+	}
+	if r.Got == "accept" && r.Oracle.Sub != "" && r.Subject != r.Oracle.Sub {
+		return false, false
+	}
+	return true, false
+}
